@@ -77,7 +77,7 @@ type scaleCase struct {
 }
 
 func recC18() *vkit.Recorder {
-	r := vkit.Rec("C18", "exploration", "client-go fake clientset driven through the public NewReplicasManager(...).Replicas(): (1) EXHAUSTIVE grid old in 0..6(10) x new in 0..6(10) x claim templates in 0..2 x delete flag, each with claims of another StatefulSet and of ordinals beyond 'old' present; oracle on the objects left in the clientset and the recorded actions; the same grid with the StatefulSet update rejected by the API server (no claim may go); rapid sequences of scale requests on ONE manager interleaved with outside scale changes; (2) rapid over pod list permutations (up to 101 pods) x readiness patterns x several StatefulSets incl. one mid rolling update; oracle on the Shard list; non-trivial = old != new with >=1 template, or a non-identity pod permutation; distinct = digest of the case")
+	r := vkit.Rec("C18", "exploration", "unit TestC18Coord: real coordinator for 1-4 cycles on the real kubernetes ReplicasManager, 1-3 StatefulSets whose state per cycle is settled / rolling update / not ready, every shard request and StatefulSet/PVC write attributed to a cycle (non-trivial there = a rolling update that starts after a coordinated cycle); pod lists also in lexicographic name order; client-go fake clientset driven through the public NewReplicasManager(...).Replicas(): (1) EXHAUSTIVE grid old in 0..6(10) x new in 0..6(10) x claim templates in 0..2 x delete flag, each with claims of another StatefulSet and of ordinals beyond 'old' present; oracle on the objects left in the clientset and the recorded actions; the same grid with the StatefulSet update rejected by the API server (no claim may go); rapid sequences of scale requests on ONE manager interleaved with outside scale changes; (2) rapid over pod list permutations (up to 101 pods) x readiness patterns x several StatefulSets incl. one mid rolling update; oracle on the Shard list; non-trivial = old != new with >=1 template, or a non-identity pod permutation; distinct = digest of the case")
 	r.Assume("a pod has an IP exactly when it is ready (both readings of 'readiness' agree); pods set-0..set-(k-1) exist as a prefix of the ordinals (OrderedReady pod management)")
 	return r
 }
